@@ -17,7 +17,15 @@ import (
 // sorting (BeaconTypeValueInt64 etc.) is not yet supported through the
 // bucket path because each Treasure's "value" field varies by content
 // type; we fall back to Bypass for those.
-func bucketExecPreconditions(beaconType hydra.BeaconType) bool {
+//
+// From/Limit select a window of the index before any filter is applied on the
+// beacon walk (MaxResults is the bound on results). A candidate list has no
+// index positions, so the same window cannot be cut out of it: paged requests
+// stay on the beacon walk.
+func bucketExecPreconditions(beaconType hydra.BeaconType, from int32, limit int32) bool {
+	if from != 0 || limit != 0 {
+		return false
+	}
 	switch beaconType {
 	case hydra.BeaconTypeKey,
 		hydra.BeaconTypeCreationTime,
@@ -98,6 +106,24 @@ func applyTimeRange(candidates []treasure.Treasure, beaconType hydra.BeaconType,
 			continue
 		}
 		out = append(out, t)
+	}
+	return out
+}
+
+// dropUnindexed removes the candidates that are not members of the requested
+// time index: a record whose creation / update / expiration time is 0 is not in
+// that index (see swamp.treasuresForBeacon), so the beacon walk never returns it.
+func dropUnindexed(candidates []treasure.Treasure, beaconType hydra.BeaconType) []treasure.Treasure {
+	switch beaconType {
+	case hydra.BeaconTypeCreationTime, hydra.BeaconTypeUpdateTime, hydra.BeaconTypeExpirationTime:
+	default:
+		return candidates
+	}
+	out := candidates[:0]
+	for _, t := range candidates {
+		if beaconTimeOf(t, beaconType) != 0 {
+			out = append(out, t)
+		}
 	}
 	return out
 }
